@@ -71,32 +71,41 @@ func callUpdate(c *histConf, live, obj *typed.TypedValue, m fieldpath.ManagedFie
 
 func genC08(e *emitter, tier string) {
 	emitSchemas(e)
-	multi, _, _ := c20Confs()
+	multiC, _, gone := c20Confs()
 	for _, sd := range c20Schemas {
 		e.line("(defschema " + quote(sd.id) + " " + sexpSchema(&sd.parser.Schema) + ")")
 	}
 	e.line("(setprop \"C08\")")
-	e.line(sexpConf(multi))
+	e.line(sexpConf(multiC))
+	e.line(sexpConf(gone))
 	n := 150
 	if tier == "thorough" {
 		n = 5000
 	}
 	n /= shardCount
 	for h := 0; h < n; h++ {
-		st := newState(multi, "v1")
+		st := newState(multiC, "v1")
 		updVer := map[string]string{}
 		steps := 3 + e.rng.Intn(5)
 		for i := 0; i < steps; i++ {
+			// in a third of the histories the converter reports v2 as gone from the middle
+			// on: the records still held at v2 are in the caller's map and must stay there
+			multi := multiC
+			vers := []string{"v1", "v2", "v3"}
+			if h%3 == 2 && i >= steps/2 {
+				multi = gone
+				vers = []string{"v1", "v3"}
+			}
 			isApply := e.rng.Intn(5) < 3
 			var mgr, ver string
 			if isApply {
 				mgr = appliers[e.rng.Intn(len(appliers))]
-				ver = multi.versions[e.rng.Intn(len(multi.versions))].name
+				ver = vers[e.rng.Intn(len(vers))]
 			} else {
 				mgr = updaters[e.rng.Intn(len(updaters))]
 				var ok bool
-				if ver, ok = updVer[mgr]; !ok {
-					ver = multi.versions[e.rng.Intn(len(multi.versions))].name
+				if ver, ok = updVer[mgr]; !ok || (multi == gone && ver == "v2") {
+					ver = vers[e.rng.Intn(len(vers))]
 					updVer[mgr] = ver
 				}
 			}
@@ -272,6 +281,10 @@ func genC09(e *emitter, tier string) {
 		sameT, detail := typedRepeat(e)
 		e.line(fmt.Sprintf("(c09.typed %s %s)", sexpBool(sameT), quote(detail)))
 	}
+	for k := 0; k < nt*4; k++ {
+		sameT, detail := operandRepeat(e)
+		e.line(fmt.Sprintf("(c09.typed %s %s)", sexpBool(sameT), quote(detail)))
+	}
 	// value equality and ordering with both allocators
 	vals := valueUniverse()
 	okAlloc := true
@@ -293,12 +306,15 @@ func genC09(e *emitter, tier string) {
 func repeatStep(e *emitter, multi *histConf, st *hstate, live *typed.TypedValue, isApply bool, mgr, ver string, v interface{}, tv *typed.TypedValue) *hstate {
 	var outs []string
 	var first opResult
+	// the repetitions are given the very same map and set objects: a call that left something
+	// behind in its arguments gives the next one another input
+	shared := copyManaged(st.managed)
 	for rep := 0; rep < 5; rep++ {
 		var r opResult
 		if isApply {
-			r, _ = callApply(multi, live, tv, copyManaged(st.managed), mgr, ver, true, -1)
+			r, _ = callApply(multi, live, tv, shared, mgr, ver, true, -1)
 		} else {
-			r, _ = callUpdate(multi, live, tv, copyManaged(st.managed), mgr, ver, -1)
+			r, _ = callUpdate(multi, live, tv, shared, mgr, ver, -1)
 		}
 		if rep == 0 {
 			first = r
@@ -449,6 +465,58 @@ func typedRepeat(e *emitter) (bool, string) {
 	}
 	if first != alone {
 		return false, "a freshly parsed schema gives another result"
+	}
+	return true, ""
+}
+
+// the typed and field-set operations twice on the very same operand objects: what the
+// first round left behind in an operand would show in the second
+func operandRepeat(e *emitter) (bool, string) {
+	sd, tr, l, r, _ := genPair(e, false)
+	tl, tr2 := typedOf(sd, tr, l, true), typedOf(sd, tr, r, true)
+	if tl == nil || tr2 == nil {
+		return true, ""
+	}
+	fsL, errL := tl.ToFieldSet()
+	fsR, errR := tr2.ToFieldSet()
+	if errL != nil || errR != nil {
+		return true, ""
+	}
+	render := func() (out string) {
+		defer func() {
+			if x := recover(); x != nil {
+				out += " panic"
+			}
+		}()
+		js := func(s *fieldpath.Set) string { b, _ := s.ToJSON(); return string(b) }
+		vs := func(t *typed.TypedValue) string {
+			if t == nil {
+				return "nil"
+			}
+			b, _ := value.ToJSON(t.AsValue())
+			return string(b)
+		}
+		out += " en=" + js(fsL.EnsureNamedFieldsAreMembers(&sd.parser.Schema, tr))
+		out += " enR=" + js(fsR.EnsureNamedFieldsAreMembers(&sd.parser.Schema, tr))
+		out += " u=" + js(fsL.Union(fsR)) + " i=" + js(fsL.Intersection(fsR)) + " d=" + js(fsL.Difference(fsR))
+		out += " rd=" + js(fsL.RecursiveDifference(fsR)) + " lv=" + js(fsL.Leaves()) + " self=" + js(fsL) + js(fsR)
+		out += " rm=" + vs(tl.RemoveItems(fsR)) + " ex=" + vs(tl.ExtractItems(fsR.Leaves(), typed.WithAppendKeyFields()))
+		if m, err := tl.Merge(tr2); err == nil {
+			out += " merge=" + vs(m)
+		}
+		if c, err := tl.Compare(tr2); err == nil {
+			out += " cmp=" + c.String()
+		}
+		if f2, err := tl.ToFieldSet(); err == nil {
+			out += " fs=" + js(f2)
+		}
+		out += fmt.Sprintf(" eq=%v c=%d", value.Equals(tl.AsValue(), tr2.AsValue()), value.Compare(tl.AsValue(), tr2.AsValue()))
+		return
+	}
+	first := render()
+	second := render()
+	if first != second {
+		return false, "the same typed and field-set calls on the same operand objects gave another result the second time"
 	}
 	return true, ""
 }
